@@ -64,3 +64,45 @@ def own_rule(ctx, fields):
             if name != spec.split(".", 1)[1]:
                 ctx.res.note(f"state field {spec} is called `{name}` in this tree (located by role)")
     eff.check_own(ctx, fields, actual)
+
+
+def harvested_names(ctx, packages=("edgegraph/structure", "edgegraph/output/nrpickler.py")):
+    """Attribute names built from the string constants the tree itself tests names against (arguments of startswith / endswith,
+    operands of == / in, class-level string constants): `<constant>x`.  A tree that treats some family of attribute names specially
+    names that family in its own source; objects carrying such an attribute are the input class that reaches the special case."""
+    import ast
+    import re
+    cached = getattr(ctx.src, "_verif_harvest", None)
+    if cached is not None:
+        return cached
+    out = []
+    files = []
+    for pkg in packages:
+        if pkg.endswith(".py"):
+            files.append(pkg)
+        else:
+            files += [r for r in ctx.src.relpaths() if r.startswith(pkg + "/")]
+    for rel in files:
+        try:
+            tree = ctx.src.tree(rel)
+        except (SourceError, OSError):
+            continue
+        for node in ast.walk(tree):
+            cands = []
+            if isinstance(node, ast.Call) and isinstance(node.func, ast.Attribute) and node.func.attr in ("startswith", "endswith", "removeprefix", "removesuffix"):
+                for a in node.args:
+                    cands += [c for c in ast.walk(a) if isinstance(c, ast.Constant)]
+            elif isinstance(node, ast.Compare) and any(isinstance(o, (ast.Eq, ast.NotEq, ast.In, ast.NotIn)) for o in node.ops):
+                for side in [node.left] + list(node.comparators):
+                    cands += [c for c in ast.walk(side) if isinstance(c, ast.Constant)]
+            elif isinstance(node, ast.ClassDef):
+                for st in node.body:
+                    if isinstance(st, (ast.Assign, ast.AnnAssign)) and isinstance(getattr(st, "value", None), ast.Constant):
+                        cands.append(st.value)
+            for c in cands:
+                if isinstance(c.value, str) and re.fullmatch(r"[A-Za-z_][A-Za-z0-9_]{0,15}", c.value) and not (c.value.startswith("__") and c.value.endswith("__")):
+                    n = c.value + "x"
+                    if n not in out:
+                        out.append(n)
+    ctx.src._verif_harvest = out[:12]
+    return ctx.src._verif_harvest
